@@ -27,7 +27,7 @@ REQUIRED_CLASSES = ['valid', 'invalid_missing', 'invalid_duplicate', 'invalid_te
 ALL_EXHAUSTIVE = False
 
 ROLES = ['date', 'description', 'amount', 'location', 'c1', 'c2', 'c3', 'skip']
-CNAMES = {'c1': 'memo', 'c2': 'txn_type', 'c3': 'vendor9'}
+CNAMES = {'c1': 'memo', 'c2': '_ref', 'c3': 'vendor9'}
 DATE_FORMATS = [None, '%m/%d/%Y', '%Y-%m-%d', '%d/%m/%Y', '%d.%m.%Y', '%m/%d/%y', '%d %b %Y']
 
 
